@@ -101,6 +101,9 @@ mod shared;
 mod sqlx;
 mod time;
 mod util;
+#[cfg(feature = "verif-hooks")]
+#[doc(hidden)]
+pub mod verif_hooks;
 
 pub use self::cron::CronSchedule;
 pub use self::date::Date;
